@@ -292,6 +292,8 @@ class Ref:
             else:
                 i["w"] = -(-n // i["S"])
                 i["chunk"] = i["S"] * i["w"]
+                if i["w"] != -(-(T - i["p"]) // i["S"]):
+                    self.amb("post-preamble-replication")
                 if mode == "equal" and i["w"] != 1:
                     raise Unsupported("equal mode with unequal sizes (constructor must refuse)")
             i["sustain"] = 1
@@ -488,6 +490,10 @@ class Ref:
                 else:
                     i["w"] = -(-n // i["S"])
                     i["chunk"] = i["S"] * i["w"]
+                    if i["w"] != -(-(T - i["p"]) // i["S"]):
+                        # documentation: smallest N with S*N >= T; with POST_PREAMBLE the crossing only has T-P trials.
+                        # The library counts from the crossing's own preamble - both are defensible readings
+                        self.amb("post-preamble-replication")
                     if mode == "equal" and i["w"] != 1:
                         raise Unsupported("equal mode with unequal sizes (constructor must refuse)")
                 C["crossings"].append(i)
